@@ -125,6 +125,14 @@ const MountPrefix = "/m"
 // ServeMode: mode 0 = app.Get(pattern), 1 = app.Use(pattern), 2 = the route is a GET route of a
 // sub-app mounted under MountPrefix (the parent splices it in through addPrefixToRoute at startup).
 func ServeMode(cfg Cfg, mode int, pattern, path string, customs []string, extra bool) (obs string) {
+	return ServeHistory(cfg, mode, pattern, []string{path}, customs, extra)[0]
+}
+
+// ServeHistory serves the requests one after the other, on the same goroutine, through the same
+// app.Handler() and the same fasthttp.RequestCtx / Request objects, so that fiber's pooled ctx (and
+// the path buffers the parameter values point into) are reused from one request to the next. One
+// observation per request; a registration / startup panic gives the single observation "panic".
+func ServeHistory(cfg Cfg, mode int, pattern string, paths []string, customs []string, extra bool) (out []string) {
 	use := mode == 1
 	app := fiber.New(cfg.Fiber())
 	var sub *fiber.App
@@ -176,7 +184,7 @@ func ServeMode(cfg Cfg, mode int, pattern, path string, customs []string, extra 
 		return true
 	}()
 	if !registered {
-		return "panic"
+		return []string{"panic"}
 	}
 	var handler fasthttp.RequestHandler
 	started := func() (ok bool) { // a mounted route is parsed again at startup
@@ -189,26 +197,32 @@ func ServeMode(cfg Cfg, mode int, pattern, path string, customs []string, extra 
 		return true
 	}()
 	if !started {
-		return "panic"
+		return []string{"panic"}
 	}
 	var fctx fasthttp.RequestCtx
 	var req fasthttp.Request
-	req.Header.SetMethod("GET")
-	req.SetRequestURI(path)
-	fctx.Init(&req, nil, nil)
-	panicked := func() (p bool) {
-		defer func() {
-			if r := recover(); r != nil {
-				p = true
-			}
+	for _, path := range paths {
+		ran, got = 0, ""
+		req.Reset()
+		req.Header.SetMethod("GET")
+		req.SetRequestURI(path)
+		fctx.Init(&req, nil, nil)
+		panicked := func() (p bool) {
+			defer func() {
+				if r := recover(); r != nil {
+					p = true
+				}
+			}()
+			handler(&fctx)
+			return false
 		}()
-		handler(&fctx)
-		return false
-	}()
-	if panicked { // a panic while serving: reported as status 599 (never a legitimate answer)
-		return "ran=" + strconv.Itoa(ran) + ";st=599" + got
+		if panicked { // a panic while serving: reported as status 599 (never a legitimate answer)
+			out = append(out, "ran="+strconv.Itoa(ran)+";st=599"+got)
+			continue
+		}
+		out = append(out, "ran="+strconv.Itoa(ran)+";st="+strconv.Itoa(fctx.Response.StatusCode())+got)
 	}
-	return "ran=" + strconv.Itoa(ran) + ";st=" + strconv.Itoa(fctx.Response.StatusCode()) + got
+	return out
 }
 
 // RPM calls the real RoutePatternMatch; "panic" if it panics.
